@@ -54,6 +54,8 @@ def spaces(tier):
         for n in range(1, 5 if q else 6):
             for lab in itertools.product(range(3), repeat=n):
                 yield ("colors", lab)
+        for nlab in (20, 21, 27):
+            yield ("colors-many", nlab)
 
     def gen_scatter():
         pts = [(0, 0), (0, 1), (1, 0), (1, 1)]
@@ -103,6 +105,8 @@ def check_case(case, acc):
             _rank(acc, case)
         elif kind == "colors":
             _colors(acc, case)
+        elif kind == "colors-many":
+            _colors_many(acc, case)
         elif kind == "scatter":
             _scatter(acc, case)
         elif kind in ("cmap", "cmap-shift"):
@@ -359,6 +363,46 @@ def _colors(acc, case):
                 if nperm != math.factorial(nshown):
                     acc.fail("%s/rng-usage" % fn, ("colors", lab), "%d! permutations of the shown labels" % nshown, nperm, note=str(holder.get("log")))
                     return
+
+
+def _colors_many(acc, case):
+    """more distinct labels than a fixed palette has colours: too many shuffles to enumerate, two of them are run"""
+    import pyrepseq.plotting as P
+    from mc.seams import Chooser
+    nlab = case[1]
+    acc.cls("more-labels-than-palette-colours")
+    labels = []
+    for i in range(nlab):
+        labels += ["L%02d" % i] * (1 if i % 5 == 4 else 2)
+    labels = labels[1::2] + labels[0::2]
+    counts = {l: labels.count(l) for l in set(labels)}
+    for mc in (None, 2):
+        for fn in ("labels_to_colors_hls", "labels_to_colors_tableau"):
+            for prefix in ((), (1,)):
+                with rng_seam(Chooser(prefix), perm_bound=64):
+                    r = acc.call(getattr(P, fn), list(labels), **({} if mc is None else {"min_count": mc}))
+                key = "%s/many-labels/" % fn
+                if raised(r) or len(r) != len(labels):
+                    acc.fail(key + "raised-or-length", case, len(labels), r if raised(r) else len(r), note="min_count=%r" % mc)
+                    return
+                cols = [tuple(float(v) for v in c) for c in r]
+                by = {}
+                for l, c in zip(labels, cols):
+                    by.setdefault(l, set()).add(c)
+                if any(len(v) != 1 for v in by.values()):
+                    acc.fail(key + "equal-labels-different-colours", case, "one colour per label", "differs", note="min_count=%r" % mc)
+                    return
+                for l, cs in by.items():
+                    rare = mc is not None and counts[l] < mc
+                    if rare != (next(iter(cs)) == (0.0, 0.0, 0.0)):
+                        acc.fail(key + ("rare-label-not-black" if rare else "frequent-label-black"), case, "black iff count < min_count", {l: next(iter(cs))}, note="min_count=%r, %d labels shown" % (mc, sum(1 for x in counts if not (mc is not None and counts[x] < mc))))
+                        return
+                if fn.endswith("hls"):
+                    shown = [next(iter(by[l])) for l in by if not (mc is not None and counts[l] < mc)]
+                    if len(set(shown)) != len(shown):
+                        acc.fail(key + "distinct-labels-same-colour", case, "distinct colours", len(set(shown)), note="min_count=%r" % mc)
+                        return
+                acc.ok((fn, nlab, mc, prefix), nontrivial=True)
 
 
 def _scatter(acc, case):
